@@ -286,3 +286,22 @@ func VerifARPRequest() {
 		vr.Reach("request not answered")
 	}
 }
+
+// VerifNewAnnounce builds an announcer without its goroutines and responders (overlay-only
+// constructor for harnesses in other packages); ifs are the local interface names.
+func VerifNewAnnounce(ifs []string) *Announce {
+	return &Announce{
+		logger:         log.NewNopLogger(),
+		nodeInterfaces: ifs,
+		arps:           map[int]*arpResponder{},
+		ndps:           map[int]*ndpResponder{},
+		ips:            map[string][]IPAdvertisement{},
+		ipRefcnt:       map[string]int{},
+		spamCh:         make(chan IPAdvertisement, 4096),
+	}
+}
+
+// VerifState exposes what the announcer answers for: service -> advertisements, and the reference counts.
+func (a *Announce) VerifState() (map[string][]IPAdvertisement, map[string]int) {
+	return a.ips, a.ipRefcnt
+}
